@@ -159,7 +159,7 @@ deriving Repr, Inhabited
 
 inductive BErr
   | cycle
-  | callFailed (i : Nat) (path : Path)      -- the configured callable (or its binding) raised
+  | callFailed (i : Nat) (path : Path) (log : List Nat)  -- the callable of node `i` (or its binding) raised; `log` = invocations completed before
   | malformed
   | fuel
 deriving DecidableEq, Repr, Inhabited
@@ -218,9 +218,9 @@ def buildVal (h : Heap) (fails : List Nat) : Nat â†’ GVal â†’ Path â†’ BuildSt â
           | .ok (vals, st2) =>
             let st2 := { st2 with onStack := st2.onStack.erase i }
             if o.kind == .cfg then
-              if fails.contains i then .error (.callFailed i path) else
+              if fails.contains i then .error (.callFailed i path st2.log) else
               match bindBuilt o vals with
-              | .error _ => .error (.callFailed i path)
+              | .error _ => .error (.callFailed i path st2.log)
               | .ok (slots, var, kw) =>
                 let j := st2.out.length
                 let r := BVal.built j
